@@ -1,3 +1,5 @@
 import Cql.Audit
 import Cql.Props.C06
+import Cql.Props.C06AsWritten
 #audit_namespace Cql.Props.C06
+#audit_namespace Cql.Props.C06AsWritten
